@@ -67,10 +67,23 @@ func (h Handler) HandleIQ(iq stanza.IQ, r xmlstream.TokenReadEncoder, start *xml
 	iter := xmlstream.NewIter(r)
 	var found bool
 	for iter.Next() {
-		found = true
 		itemStart, r := iter.Current()
-		jstr := itemStart.Attr[0].Value
-		j := jid.MustParse(jstr)
+		// Skip anything that is not an element (eg. character data).
+		if itemStart == nil {
+			continue
+		}
+		found = true
+		var j jid.JID
+		for _, attr := range itemStart.Attr {
+			if attr.Name.Local == "jid" {
+				var err error
+				j, err = jid.Parse(attr.Value)
+				if err != nil {
+					return err
+				}
+				break
+			}
+		}
 		switch start.Name.Local {
 		case "block":
 			item := Item{}
